@@ -339,6 +339,8 @@ def compare_native(out, case, obj, gvars, nvars, got, nat, rdims):
             mc = "min_count-given" if case["min_count"] is not None else "-"
             if not all(d in vin.dims for d in gd):
                 mc = "variable-lacks-grouper-dims"
+            elif path == "plain-reduction-shortcut" and any(x == "nan" for x in case["groupers"][0]["spec"]["v"]):
+                mc = "missing-labels"
             out.add(("values", func, *kindtag, mc), f"{name}: func={func} skipna={case['skipna']} min_count={case['min_count']} values (native dim order "
                     f"{n.dims}) {a.tolist()} != native {b.tolist()} case={brief(case)}")  # fmt: skip
             continue
